@@ -13,6 +13,8 @@ module Pos :
 
   val pred_double : positive -> positive
 
+  val pred_N : positive -> coq_N
+
   type mask = Pos.mask =
   | IsNul
   | IsPos of positive
@@ -49,6 +51,8 @@ module Pos :
   val coq_lor : positive -> positive -> positive
 
   val coq_land : positive -> positive -> coq_N
+
+  val shiftl : positive -> coq_N -> positive
 
   val iter_op : ('a1 -> 'a1 -> 'a1) -> positive -> 'a1 -> 'a1
 
